@@ -148,6 +148,11 @@ func init() {
 			m.heapMod(builderHeap, "Out").Any = true
 		},
 		run: func(x *Exec, st *State, a []Val, site ssa.Instruction) []Val {
+			if pk := x.pkgOf(x.fn); pk != nil && pk.Path() == modPath {
+				// package pql writes formatted text into the SQL only for its internal placeholders
+				// ("NULL /* unhandled ... */"): these must be unreachable (C05)
+				st.check(x.key+"/unreachable/placeholder", "false", "an internal placeholder would reach the output at "+x.pos(site.Pos()))
+			}
 			if a[0].Inner != nil && a[0].Inner.S == "Int" {
 				r, out := x.builderOut(st, *a[0].Inner)
 				x.setBuilderOut(st, r, fmt.Sprintf("(OStr %s %s)", out, st.fresh("fprintf", "Str")))
